@@ -458,9 +458,9 @@ func c19Run(c *Ctx) {
 	mustBeDefault(c)
 	mxj.XMLEscapeChars(true)
 	c.S.Rule = "cases = (list of 1..3 Maps, writer, indent, reader, fault): XML Maps decoded from 6 documents (attributes, repeated siblings, mixed content, special characters), JSON Maps from 6 objects (strings with braces, quotes, backslashes incl. a trailing escaped backslash, nested lists/maps, non-null scalars), plus lists that hold large documents (0.6 to 9 KB) before and between small ones (intact and 4 truncation offsets); writers XmlFile, XmlFileIndent, JsonFile, JsonFileIndent (default and safe) with (prefix, indent) pairs {(\"\", 2 spaces), (\"\", tab), (space, space), (tab, U+3000)}; readers NewMapsFromXmlFile[Raw], NewMapsFromJsonFile[Raw]; faults: none, EVERY truncation offset, EVERY single-byte corruption offset x {X, <, {, }, comma, quote, 0xFF}, missing file, directory. Oracle: intact => same count and order, each Map equal to the decode of its own encoding (JSON: the original), Raw contains the document text; truncation => error together with exactly the Maps wholly before the cut (clean end at a boundary); corruption => the Maps wholly before the fault are returned and equal, and for XML count/error agree with a reference sequential reader built on encoding/xml; unreadable file => error. Gob: all Maps encoded first, then all decoded (deep-equal up to nil-vs-empty); Copy: deep-equal, receiver unchanged, no shared container identity. non-trivial = faulted or intact read executed."
-	c.S.Assumptions = []string{"gob cannot distinguish nil from empty containers (encoding/gob)", "callers register map[string]interface{} and []interface{} with encoding/gob (its contract)", "the empty JSON object is skipped by the file readers by design and is not in the alphabet"}
+	c.S.Assumptions = []string{"gob cannot distinguish nil from empty containers (encoding/gob)", "callers register map[string]interface{} and []interface{} with encoding/gob (its contract)"}
 	xmlDocs := []string{`<a/>`, `<a x="1">t</a>`, `<r><b>&lt;1&gt; &amp; "q"</b><a/></r>`, `<r><a>1</a><b/><a>2</a></r>`, `<r y="2">m<c>v</c></r>`, `<doc><k n="1">é</k></doc>`}
-	jsonDocs := []string{`{"a":1}`, `{"a":"}{\""}`, `{"a":"x\\"}`, `{"a":{"b":[1,{"c":"]"}]},"d":true}`, `{"k":"<&>","l":["s",2.5,false]}`, `{"e":"\\\"{"}`, `{"p":"C:\\dir\\ "}`}
+	jsonDocs := []string{`{"a":1}`, `{"a":"}{\""}`, `{"a":"x\\"}`, `{"a":{"b":[1,{"c":"]"}]},"d":true}`, `{"k":"<&>","l":["s",2.5,false]}`, `{"e":"\\\"{"}`, `{"p":"C:\\dir\\ "}`, `{}`}
 	maxList := 2
 	if c.Thorough {
 		maxList = 3
